@@ -81,7 +81,20 @@ func gexpr(e ast.Expr) string {
 	switch x := e.(type) {
 	case *ast.ParenExpr:
 		return gexpr(x.X)
-	case *ast.Ident, *ast.SelectorExpr, *ast.IndexExpr:
+	case *ast.IndexExpr:
+		// `table[i]` on a package-level array of integers: a look-up by the VALUE of i, hoisted in
+		// front of the statement as `bindCall ["#table[i]"] "index table" [i]` (gPending)
+		if id, ok := x.X.(*ast.Ident); ok && t != ".other" {
+			if v, isVar := info.Uses[id].(*types.Var); isVar && v.Parent() == v.Pkg().Scope() {
+				if _, isArr := v.Type().Underlying().(*types.Array); isArr {
+					name := "#" + srcText(e)
+					gPending = append(gPending, fmt.Sprintf("(.bindCall [%s] %s [%s])", leanStr(name), leanStr("index "+id.Name), gexpr(x.Index)))
+					return fmt.Sprintf("(.var %s %s)", leanStr(name), t)
+				}
+			}
+		}
+		return fmt.Sprintf("(.var %s %s)", leanStr(srcText(e)), t)
+	case *ast.Ident, *ast.SelectorExpr:
 		return fmt.Sprintf("(.var %s %s)", leanStr(srcText(e)), t)
 	case *ast.UnaryExpr:
 		switch x.Op {
@@ -165,7 +178,26 @@ var gLoopDepth int
 // functions in which a value-less `var x T` inside a loop body is rendered as a marker statement
 var gstmtVarMarker = map[string]bool{"cli.main": true}
 
+// gPending holds the table look-ups met while rendering the expressions of the current statement
+var gPending []string
+
 func gstmt(s ast.Stmt) string {
+	saved := gPending
+	gPending = nil
+	out := gstmt1(s)
+	pend := gPending
+	gPending = saved
+	if len(pend) > 0 {
+		if _, ok := s.(*ast.AssignStmt); ok {
+			return gseq(append(pend, out))
+		}
+		// a look-up inside a condition or a loop header would have to be repeated: not rendered
+		return fmt.Sprintf("(.opaque %s)", leanStr("table look-up in "+fmt.Sprintf("%T", s)))
+	}
+	return out
+}
+
+func gstmt1(s ast.Stmt) string {
 	if s == nil {
 		return ".skip"
 	}
@@ -457,12 +489,13 @@ var gstmtFuncs = map[string]bool{
 	// the command-line tool
 	"cli.main": true, "cli.parseUint16": true, "cli.parseInt16": true, "cli.parseUint32": true, "cli.parseInt32": true, "cli.parseFloat32": true,
 	"cli.parseUint64": true, "cli.parseInt64": true, "cli.parseFloat64": true, "cli.parseAddressAndQuantity": true, "cli.parseUnitId": true, "cli.parseHexBytes": true,
+	"crc.init": true, "crc.add": true, "crc.value": true, "crc.isEqual": true,
 	"uint16ToBytes": true, "bytesToUint16": true, "encodeBools": true, "decodeBools": true, "bytesToUint16s": true, "uint16sToBytes": true,
 }
 
 var gstmtParams = map[string][]string{}
 var gstmtCur string
-var gstmtValueRange = map[string]bool{"ModbusServer.Stop": true, "cli.main": true, "ModbusServer.extractRole": true}
+var gstmtValueRange = map[string]bool{"ModbusServer.Stop": true, "cli.main": true, "ModbusServer.extractRole": true, "crc.add": true}
 var gstmtTypedAppend = map[string]bool{"decodeBools": true, "encodeBools": true, "bytesToUint16s": true, "uint16sToBytes": true}
 
 func collectGStmt(fn string, fd *ast.FuncDecl, out map[string]string) {
